@@ -246,17 +246,20 @@ def ac4_allow_unused(fc: FnCls, R: RuleResult):
     return n
 
 
-def ac4_none_conversion(fc: FnCls, R: RuleResult):
-    """If the result of an allow_unused pull-back is flattened/concatenated (handed to a packer or returned from a
-    function whose result is flattened), None entries must be converted to zeros first."""
+def ac4_none_conversion(fc: FnCls, R: RuleResult, recursive_callees: Optional[Set[str]] = None):
+    """If the result of an allow_unused pull-back made inside a closure of backward is flattened /
+    concatenated (handed to a packer, or the closure is the integrand of a recursive functional whose
+    tuple outputs are packed), None entries must be converted to zeros first."""
     n = 0
+    recursive_callees = recursive_callees or set()
     for f, c in grads_in_backward(fc):
+        if f is fc.backward:
+            continue      # gradients returned directly to autograd may be None
         st = enclosing_stmt(c)
         if not (isinstance(st, ast.Assign) and isinstance(st.targets[0], ast.Name)):
             continue
         name = st.targets[0].id
-        # is the enclosing function a sibling whose output is flattened (TensorPacker.flatten / torch.cat)?
-        flattened = _result_is_flattened(fc, f)
+        flattened = _result_is_flattened(fc, f) or _passed_to(fc, f, recursive_callees)
         if not flattened:
             continue
         n += 1
@@ -272,8 +275,17 @@ def ac4_none_conversion(fc: FnCls, R: RuleResult):
             R.ok(f.fq, what)
         else:
             R.bad(f, st, "the allow_unused pull-back result `%s` is flattened/concatenated later but None entries are not "
-                  "converted to zeros first (a tensor that does not enter the dynamics would raise)" % name, what=what)
+                  "converted to zeros first (a tensor that does not influence the output would raise)" % name, what=what)
     return n
+
+
+def _passed_to(fc: FnCls, f: FuncInfo, callees: Set[str]) -> bool:
+    bw = fc.backward
+    for c in own_nodes(bw.node):
+        if isinstance(c, ast.Call) and ast.unparse(c.func) in callees and c.args \
+                and isinstance(c.args[0], ast.Name) and c.args[0].id == f.name:
+            return True
+    return False
 
 
 def _result_is_flattened(fc: FnCls, f: FuncInfo) -> bool:
